@@ -66,6 +66,14 @@ class Harness:
                 n[0] += 1
                 self.interp.ctx.oblige(f"align.{what.strip()}#{n[0]}", z3.Implies(z3.And(*a.root.facts()), a.doms[0] == b.doms[0]), kind="alignment", why=f"operands of `{what}` are combined by position: they must have the same rows ({a.name} vs {b.name})")
                 return True
+            if isinstance(a, RowAxis) and isinstance(b, RowAxis) and a.root is b.root and len(a.doms) == len(b.doms) == 1 and getattr(self, "default_replay", None) is not None:
+                # the same universe but row orders that cannot be compared symbolically: positional combination is only
+                # right if the two orders agree -- not decidable here; the unit's replay on the real code decides
+                # (violation iff the replay fails, otherwise undecided); execution continues as if aligned
+                n = self.interp.ctx.__dict__.setdefault("_align_n", [0])
+                n[0] += 1
+                self.interp.ctx.oblige(f"align.{what.strip()}#{n[0]}.same_row_order", z3.BoolVal(False), kind="alignment", needs_replay=True, why=f"operands of `{what}` are combined by position but their row orders differ symbolically ({a.order} vs {b.order})")
+                return True
             return False
 
         values.ALIGN_HOOK[0] = align
@@ -401,6 +409,16 @@ def run_unit(udesc, tier="quick", timeout_ms=None, known=None):
                 cr = discharge(list(ob.pc), min(timeout_ms, 10000))
                 covered_pcs[key] = cr["verdict"]
             rec["cover"] = covered_pcs[key]
+            if ob.meta.get("needs_replay"):
+                rec.update(verdict="unknown", backend="none", seconds=0, cover="n/a", generalised="not decidable symbolically: " + str(ob.meta.get("why")), note=str(ob.meta.get("why")), text=_short(ob))
+                rp = ob.meta.get("replay")
+                if rp is not None:
+                    try:
+                        rec["replay_spec"] = rp(lambda t: None)
+                    except Exception as e:
+                        rec["replay_error"] = repr(e)
+                out["obligations"].append(rec)
+                continue
             ax = theory_np.axiom_instances(list(ob.pc) + [ob.goal]) + _count_axioms(list(ob.pc) + [ob.goal])
             if ax:
                 ob.pc = list(ob.pc) + ax
